@@ -12,7 +12,7 @@ Each command (start / send e) yields one observation dict:
 from __future__ import annotations
 import asyncio, copy, heapq, logging, selectors, signal, sys, os
 
-logging.disable(logging.CRITICAL)
+logging.disable(logging.WARNING)          # ERROR records reach the counting handler below, nothing is printed
 
 from xstate_statemachine import create_machine, SyncInterpreter, Interpreter, MachineLogic  # noqa: E402
 from xstate_statemachine.exceptions import XStateMachineError  # noqa: E402
@@ -152,11 +152,11 @@ def mklogic(log, gv):
     return lg
 
 
-def observe(it, log, err="", nerr=0):
+def observe(it, log, err="", nerr=0, cuts=0):
     ids = sorted(n.id for n in it._active_state_nodes)
     hist = {k: [n.id for n in v] for k, v in it._history.items()}
     ctx = {k: v for k, v in dict(it.context).items() if isinstance(v, int)} if isinstance(it.context, dict) else {}
-    return {"C": ids, "S": it.status, "T": list(log), "H": hist, "E": err, "X": nerr, "K": ctx}
+    return {"C": ids, "S": it.status, "T": list(log), "H": hist, "E": err, "X": nerr, "K": ctx, "cuts": cuts}
 
 
 def _mk_event(op):
@@ -182,18 +182,21 @@ def run_sync(case):
     machine = create_machine(copy.deepcopy(case["machine"]), logic=mklogic(log, case["guards"]))
     it = SyncInterpreter(machine)
     it.use(RecorderPlugin(log))
+    cnt = _COUNTER
+    cnt.reset()
     try:
         it.start()
-        out.append(observe(it, log))
+        out.append(observe(it, log, cuts=cnt.cuts))
     except XStateMachineError as x:
-        out.append(observe(it, log, type(x).__name__))
+        out.append(observe(it, log, type(x).__name__, cuts=cnt.cuts))
     for op in case_ops(case):
         log.clear()
+        cnt.reset()
         try:
             it.send(_mk_event(op))
-            out.append(observe(it, log))
+            out.append(observe(it, log, cuts=cnt.cuts))
         except XStateMachineError as x:
-            out.append(observe(it, log, type(x).__name__))
+            out.append(observe(it, log, type(x).__name__, cuts=cnt.cuts))
     it.stop()
     return out
 
@@ -229,14 +232,33 @@ async def _drain(it):
     raise Hang()
 
 
-class _ErrCounter(logging.Handler):
+class _LogCounter(logging.Handler):
+    """counts the library's own error logs: failed events (async) and maxIterations cuts (both engines)"""
+
     def __init__(self):
         super().__init__(level=logging.ERROR)
         self.n = 0
+        self.cuts = 0
 
     def emit(self, record):
-        if "Error processing event" in record.getMessage():
+        try:
+            msg = record.getMessage()
+        except Exception:
+            return
+        if "Error processing event" in msg:
             self.n += 1
+        if "Exceeded" in msg:
+            self.cuts += 1
+
+    def reset(self):
+        self.n = 0
+        self.cuts = 0
+
+
+_COUNTER = _LogCounter()
+_LIBLOG = logging.getLogger("xstate_statemachine")
+_LIBLOG.addHandler(_COUNTER)
+_LIBLOG.propagate = False
 
 
 async def _run_async(case):
@@ -245,28 +267,22 @@ async def _run_async(case):
     machine = create_machine(copy.deepcopy(case["machine"]), logic=mklogic(log, case["guards"]))
     it = Interpreter(machine)
     it.use(RecorderPlugin(log))
-    cnt = _ErrCounter()
-    lg = logging.getLogger("xstate_statemachine.interpreter")
-    logging.disable(logging.WARNING)
-    lg.addHandler(cnt)
+    cnt = _COUNTER
+    cnt.reset()
     try:
-        try:
-            await it.start()
-            await _drain(it)
-            out.append(observe(it, log, nerr=cnt.n))
-        except XStateMachineError as x:
-            out.append(observe(it, log, type(x).__name__))
-            return out
-        for op in case_ops(case):
-            log.clear()
-            cnt.n = 0
-            await it.send(_mk_event(op))
-            await _drain(it)
-            out.append(observe(it, log, nerr=cnt.n))
-        await it.stop()
-    finally:
-        lg.removeHandler(cnt)
-        logging.disable(logging.CRITICAL)
+        await it.start()
+        await _drain(it)
+        out.append(observe(it, log, nerr=cnt.n, cuts=cnt.cuts))
+    except XStateMachineError as x:
+        out.append(observe(it, log, type(x).__name__))
+        return out
+    for op in case_ops(case):
+        log.clear()
+        cnt.reset()
+        await it.send(_mk_event(op))
+        await _drain(it)
+        out.append(observe(it, log, nerr=cnt.n, cuts=cnt.cuts))
+    await it.stop()
     return out
 
 
